@@ -191,6 +191,10 @@ def make_deque(director, name, maxlen, items=()):
 
     def __getitem__(self, i):
       director.before(name, "getitem")
+      if isinstance(i, int) and i < 0:
+        i += base.__len__(self)        # the C slot would call back into our __len__ for a negative index
+        if i < 0:
+          raise IndexError("deque index out of range")
       return base.__getitem__(self, i)
 
     def __iter__(self):
